@@ -1,7 +1,7 @@
 """Environment stub for GSL's odeiv2 driver (compiled library, no IR): nondeterministic but contract-respecting.
 
 apply(d,&t,t1,y): makes the scripted callbacks sys.function(tau_k, in_k, out_k, sys.params) with tau_k fresh symbolic times,
-in_k chosen from {y, scratch1, scratch2} (the first call of each apply is at in=y, as every explicit GSL stepper does), out_k from
+in_k chosen from {y, scratch1, scratch2} (the real adaptive driver may start a later apply at a scratch buffer: scripts cover both), out_k from
 {deriv1, deriv2}; then overwrites y with fresh symbolic values, sets *t=t1 and returns the scripted status.
 Every callback is recorded in st.log as ('rhs', call#, k, tau, in_addr, out_addr, in_values, out_values, store_violations)."""
 from fractions import Fraction
